@@ -48,6 +48,11 @@ void TruncatedExponentialDiscreteDistribution::fireParameterChanged(const Parame
 
 void TruncatedExponentialDiscreteDistribution::restrictToConstraint(const ConstraintInterface& c)
 {
+  // The truncation point may already share the (mutable) domain interval as its constraint:
+  // check it before the domain is narrowed, otherwise it would be left outside its own constraint.
+  if (!c.isCorrect(getParameterValue("tp")))
+    throw ConstraintException("TruncatedExponentialDiscreteDistribution::restrictToConstraint: impossible to restrict to constraint", &getParameter_("tp"), getParameterValue("tp"));
+
   AbstractDiscreteDistribution::restrictToConstraint(c);
   getParameter_("tp").setConstraint(intMinMax_);
 }
